@@ -96,6 +96,8 @@ class XyeEngine(Engine):
         scn = self._gen_one(rng, tier)
         if rng.random() < 0.1:
             scn["locale"] = "C"  # default text encoding of open() is strict ASCII
+        if scn["kind"] == "roundtrip" and scn["n"] <= 200 and rng.random() < 0.12:
+            scn["interrupt"] = {"frac": rng.random(), "where": rng.choice(["line", "write", "write"])}
         if rng.random() < 0.15:
             scn["logging"] = rng.choice(["INFO", "DEBUG"])  # the application has logging switched on
         if scn["kind"] == "roundtrip" and (i < 6 or rng.random() < 0.15) and scn["n"] <= 200:
@@ -110,6 +112,7 @@ class XyeEngine(Engine):
                 if i < 6:
                     # enumeration: every distinct line of xye.py and every write() of this save
                     scn["interleave"] = {"sweep": True, "other": other}
+                    scn["interrupt"] = {"sweep": True}
                     scn["faults"] = {"mode": "none"}
         if scn["kind"] == "roundtrip" and rng.random() < 0.35:
             # the same target is written again with other data (and loaded again)
@@ -480,6 +483,8 @@ class XyeEngine(Engine):
         self._load_and_compare(scn, ctx, target, "fault-free")
         if scn.get("interleave") and not ctx.violations:
             self._interleaved(scn, ctx)
+        if scn.get("interrupt") and not ctx.violations:
+            self._interrupted(scn, ctx)
         writes = target.sim_writes if scn["sink"] == "mem" else None
         mode = scn["faults"]["mode"]
         if mode == "enum_writes" and scn["sink"] == "mem":
@@ -571,6 +576,54 @@ class XyeEngine(Engine):
         self._load_and_compare(b, ctx, tb, f"interleaved{tag}, pre-empting caller ({desc})")
         for v in ctx.violations[n0:]:
             v.setdefault("hint", {}).update(hint)
+
+    def _interrupted(self, scn, ctx):
+        """The caller is interrupted (Ctrl-C, cancelled task) at a scheduling point of save_xye (a
+        line of xye.py or inside a write()); then the same data is saved again to the same
+        (emptied) target and loaded: the table must be complete and exact."""
+        import scippneutron.io.xye as xye
+
+        it = scn["interrupt"]
+        a = dict(scn, sink="mem")
+        prefixes = (xye.__file__,)
+        counter = seams.Preemptor(prefixes, {})
+        csink = seams.SimStringIO(ctx=ctx)
+        if counter.run(lambda: self._save(a, ctx, csink, label="save_counting_pass")) is not None:
+            return
+        totals = {"line": counter.ordinal, "write": csink.sim_writes}
+        if it.get("sweep"):
+            pts = [("line", k) for k in range(totals["line"])] + [("write", k) for k in range(totals["write"])]
+            ctx.count("interruption_points_enumerated", len(pts))
+        else:
+            where = it.get("where", "write")
+            total = totals[where]
+            pts = [(where, min(total - 1, int(it["frac"] * total)) if total else 0)]
+        for where, at in pts:
+            kind = {"line": "interrupt_at_line", "write": "interrupt_in_write"}[where]
+            ctx.fault_configured(kind)
+            try:
+                if where == "write":
+                    t = seams.SimStringIO(ctx=ctx, yield_at={at: seams.interrupt_now})
+                    self._save(a, ctx, t, label="save_interrupted")
+                else:
+                    t = seams.SimStringIO(ctx=ctx)
+                    seams.Preemptor(prefixes, {at: seams.interrupt_now}).run(
+                        lambda: self._save(a, ctx, t, label="save_interrupted"))
+                ctx.probe("interruption_point_not_reached")
+                continue
+            except seams.SimInterrupt:
+                pass
+            ctx.fault_fired(kind)
+            t.seek(0)
+            t.truncate(0)
+            e2 = self._save(a, ctx, t, label="save_again_after_interrupt")
+            if e2 is not None:
+                ctx.violate("save_raised", f"after an interruption at {where} {at}/{totals[where]} saving again "
+                            f"raised {e2}", kind="save_after_interrupt_raised", exc=e2.name)
+                return
+            self._load_and_compare(a, ctx, t, f"saved again after an interruption at {where} {at}/{totals[where]}")
+            if ctx.violations:
+                return
 
     def _interleaved(self, scn, ctx):
         import scippneutron.io.xye as xye
@@ -726,6 +779,10 @@ class XyeEngine(Engine):
         if s.get("interleave"):
             c = copy.deepcopy(s)
             del c["interleave"]
+            yield c
+        if s.get("interrupt"):
+            c = copy.deepcopy(s)
+            del c["interrupt"]
             yield c
         if s.get("layout", "plain") != "plain":
             c = copy.deepcopy(s)
